@@ -1,11 +1,11 @@
-(* C20 correspondence evaluator: runs the four model variants on a harness case and compares with what the real code
+(* C20 correspondence evaluator: runs the model variants (4 x 2 readings of a null index cell) on a harness case and compares with what the real code
    returned (NewKeyCondition error, Scan ranges, MayBeInRange per probe, CheckInRange marks per rectangle). *)
 From Coq Require Import ZArith List Bool Arith.
-From OG Require Import C20.Model C20.BloomModel.
+From OG Require Import C20.Model C20.NullOrder C20.BloomModel.
 Import ListNotations.
 
 Record ccase := mkC {
-  c_isint : list bool; c_keys : list key; c_sizes : list nat; c_cond : cond;
+  c_isint : list bool; c_pads : list Z; c_keys : list key; c_sizes : list nat; c_cond : cond;
   c_coarse : nat; c_minmarks : nat; c_probes : list (nat * nat); c_rects : list (list range);
   c_detail : bool;
   (* checkInAnyRange driven with recorded call-back marks: (s, e), visited rectangles with their marks, final mark *)
@@ -20,6 +20,10 @@ Record ccase := mkC {
 
 (* order: (rb current, norm current) (rb current, norm repaired) (rb repaired, norm current) (rb repaired, norm repaired) *)
 Definition variants : list variant := [mkV false true; mkV false false; mkV true true; mkV true false].
+(* each of them under the two readings of a null index cell: entries 0..3 = +infinity (today), 4..7 = the pad value the
+   writer's sort uses for a null (repaired createFieldRefFunc) *)
+Definition variants_nr : list (null_reading * variant) :=
+  map (pair null_posinf) variants ++ map (pair null_pad) variants.
 
 Fixpoint list_eqb {A} (eqb : A -> A -> bool) (a b : list A) : bool :=
   match a, b with
@@ -47,9 +51,10 @@ Definition scan_matches (c : ccase) (m : scan_result) : bool :=
 
 (* per variant: (mismatch mask, model cover per fragment, model may_be per probe).
    mask bits: 1 scan, 2 may_be, 4 marks, 8 condition error, 16 checkInAnyRange with recorded call-back marks *)
-Definition eval_variant (c : ccase) (rpn : list elem) (V : variant) : nat * list bool * list bool :=
+Definition eval_variant (c : ccase) (rpn : list elem) (NV : null_reading * variant) : nat * list bool * list bool :=
+  let V := snd NV in
   let n := length (c_sizes c) in
-  let idx := build_index (c_sizes c) (c_keys c) in
+  let idx := read_index (fst NV) (c_pads c) (build_index (c_sizes c) (c_keys c)) in
   let sc := scan V (c_isint c) rpn idx n (c_coarse c) (c_minmarks c) in
   let probes := map (fun f => (f, S f)) (seq 0 n) ++ c_probes c in
   let mb := map (fun p => may_range V (c_isint c) rpn idx (fst p) (snd p)) probes in
@@ -74,7 +79,7 @@ Definition eval_case (c : ccase) : list (nat * list bool * list bool) :=
   match compile (c_isint c) (c_cond c) with
   | None => [((if i_conderr c then 0 else 8), [], [])]
   | Some rpn =>
-      if i_conderr c then [(8, [], [])] else map (eval_variant c rpn) variants
+      if i_conderr c then [(8, [], [])] else map (eval_variant c rpn) variants_nr
   end.
 
 Definition interesting (r : list (nat * list bool * list bool)) : bool :=
